@@ -273,7 +273,7 @@ def specs(tier):
     for s in ["hollow", "two", "inv:two", "framedot", "cw:penta"] + (["inv:hollow", "inv:framedot", "hollow2", "ell", "you"] if tier != "quick" else []):
         out.append(dict(module=Mo, scenario="CompositeMoments", params=dict(shape=s, order=3 if tier == "quick" else 4)))
     for degs in [(2, 1), (2, 2), (3, 1), (1, 2, 1)] + ([(3, 3), (3, 2), (2, 2, 2), (3, 1, 2)] if tier != "quick" else []):
-        out.append(dict(module=Mo, scenario="CurvedMoments", params=dict(degrees=list(degs)), time_budget=300 if tier == "quick" else 1800))
+        out.append(dict(module=Mo, scenario="CurvedMoments", params=dict(degrees=list(degs)), time_budget=300 if tier == "quick" else 600))
     return out
 
 
